@@ -8,7 +8,7 @@ VERIF = os.path.dirname(os.path.dirname(os.path.abspath(__file__)))
 # property -> (technique, level text, level note, design ref)
 T = {
  "C01": ("Coq proof (R instance of the GMM functor: logaddexp/lse = ln sum exp, ll = ln of the weighted product of normalised Gaussians, batch/chunk independence, lse bounds) + float-instance correspondence",
-         "Theorems over R for every number of components/features/samples: the reported value is ln(sum_c w_c prod_d gauss1), per-component values log-sum-exp to it, batches split arbitrarily, the reduction only exponentiates non-positive arguments. The same functor body at binary64 is compared with GMMMachine on every run. Each one-dimensional factor is proved (Coquelicot, is_RInt_gen over the whole line) to integrate to one for every mean and positive variance, given the standard Gaussian integral as an explicit hypothesis (not an axiom). Partial: the standard Gaussian integral itself (no closed proof in the installed libraries) and binary64 finiteness.",
+         "Theorems over R for every number of components/features/samples: the reported value is ln(sum_c w_c prod_d gauss1), per-component values log-sum-exp to it, batches split arbitrarily, the reduction only exponentiates non-positive arguments. The same functor body at binary64 is compared with GMMMachine on every run. Each one-dimensional factor is proved (Coquelicot, is_RInt_gen over the whole line) to integrate to one for every mean and positive variance; the textbook integral of exp(-t^2/2) = sqrt(2 pi), absent from the installed libraries, is proved in the development (GaussIntAux.v). Not formalised: the product over features as a multiple integral (Fubini), and binary64 finiteness in the tails (exhibited by the float model and the runs).",
          "Model hand-written; tie = differential run (tolerance 2^-30 rel). Reals axioms of the standard library.", "DESIGN.md 4/C01"),
  "C02": ("Coq proof (statistics as explicit responsibility-weighted sums; additivity over every split by induction; refusal iff declared shapes differ) + correspondence",
          "Theorems over R: responsibilities are non-negative and sum to one, sum n = T, e_step of any concatenation = fold of stats_add, permutation invariance, add refuses exactly on shape mismatch; correspondence of acc_stats/transform/+/+= incl. every composition of small row sets and Dask chunks.",
